@@ -13,6 +13,7 @@ def run(ctx):
         "complemented. Together with the accessor mapping (kernel K10), the walk (K14) and the circular-typed "
         "reverse_complement (C14 rule) this gives: assembling reverse complements yields the reverse complement. "
         "Decides the pattern symmetry and the structural conditions; Seq.reverse_complement itself is library code."
+        ' K2 and the text-consumers rule (acceptance is decided by the compiled pattern alone) and, for the pattern symmetry, also the enzymes that cut inside their site.'
     )
     r.not_decided = ["Bio.Seq.reverse_complement / SeqRecord.reverse_complement arithmetic (library, T3)"]
     names = enzymes_for_tier(ctx)
